@@ -63,13 +63,11 @@ impl Quil for CircuitDefinition {
         }
         writeln!(writer, ":")?;
         for instruction in &self.instructions {
-            let lines = match fall_back_to_debug {
-                true => instruction.to_quil_or_debug(),
-                false => instruction.to_quil()?,
-            };
-            for line in lines.split('\n') {
-                writeln!(writer, "{INDENT}{line}")?;
-            }
+            // Indent the instruction as a whole: its text may contain a quoted string with a
+            // newline in it, and indenting every line would change that string.
+            write!(writer, "{INDENT}")?;
+            instruction.write(writer, fall_back_to_debug)?;
+            writeln!(writer)?;
         }
 
         Ok(())
